@@ -38,6 +38,23 @@ CLAIMED = {
             'Theorems over all pairs / triples of expression trees of the model; the rewrite clause (equivalence of rewritten '
             'variants) is decided by the oracle and the correspondence, not by a theorem.',
             'Instance independence is structural in the model (the functions take no table) and is checked on three instances.', 'DESIGN.md section 4 C08'),
+    'C02': ('Coq proof of parser completeness for the grammar (every nesting depth, arity, redundant parentheses) and of the '
+            'greedy WITH grouping + exhaustive token strings and grammar-generated strings: correspondence and independent reference parser',
+            'Theorem bparse_complete over the stack-machine model of BooleanAlgebra.parse with arbitrary token strings and '
+            'positions; with_grouping_complete for LICENSE WITH LICENSE triples; the string level (layout, case, known names) '
+            'rests on the correspondence: all token strings <= 5/6 under both tokenizers and generated layouts over random tables.',
+            'String-level completeness (parse_valid_string) is not a Coq theorem yet; see DESIGN.md.', 'DESIGN.md section 4 C02'),
+    'C03': ('Coq proof (no foreign exception from parse / validate for every table, flags and string; accepted token sequences '
+            'are well formed: allowed adjacencies, balanced parentheses, non-empty; stray WITH refused; blank -> None) + '
+            'exhaustive token strings x 8 flag combinations, malformed stream, position oracle',
+            'Theorems over the whole parse model (tokenizers, unknown merge, WITH grouping, strict checks, boolean parser). '
+            'The position clause (error_located) is decided by the oracle on the implementation, not by a theorem.',
+            'A single dangling operator at the end is outside the claim.', 'DESIGN.md section 4 C03'),
+    'C12': ('Coq proof (strict accepts iff non-strict accepts and roles are right, equal results; otherwise error 101/102 at the '
+            'first offending license) + exhaustive token strings against all four flag assignments',
+            'Theorems parse_strict_iff / parse_strict_error over the parse model for every table and string; flag independence '
+            'of non-strict parsing is decided by the oracle (four flag assignments of the table), not by a theorem.',
+            '', 'DESIGN.md section 4 C12'),
 }
 
 NOT_YET = 'check under construction in this session; see DESIGN.md section 4 for the planned theorem'
